@@ -49,10 +49,26 @@ structure St where
   normC : Float := 1.0
   rtol : Float := 1e-5
   rules : List (List (Float × Float)) := []
+  cdf : Bool := false                              -- post-fix variant of add_lorentzian_line (notes/fixes/C02-1.diff)
+  gtab : List (Float × Float × Float) := []        -- (wavelength, x, cumulative) supplied by the harness
 
 /-- the integrator handed to `add_lorentzian_line`: `GaussianQuadrature` over `StarkFunction` -/
+def lookupG (st : St) (wl x : Float) : Float :=
+  match st.gtab.find? (fun p => p.1.toBits == wl.toBits && p.2.1.toBits == x.toBits) with
+  | some p => p.2.2
+  | none => 0.0 / 0.0
+
 def starkI (st : St) : Float → Float → Float → Float → Float :=
-  fun wl fwhm a b => gaussQuad (starkFunction fns st.normC wl fwhm) st.rtol st.rules a b
+  fun wl fwhm a b =>
+    if st.cdf then
+      -- the patched bin integral: closed-form cumulative, clipped at the cut-offs
+      (1.0 / st.normC) * (lookupG st wl (minv b (wl + st.cutL * fwhm)) - lookupG st wl (maxv a (wl - st.cutL * fwhm)))
+    else gaussQuad (starkFunction fns st.normC wl fwhm) st.rtol st.rules a b
+
+def parseTriples : Nat → List Float → List (Float × Float × Float)
+  | 0, _ => []
+  | k + 1, a :: b :: c :: t => (a, b, c) :: parseTriples k t
+  | _, _ => []
 
 def parseRules : Nat → List String → List (List (Float × Float))
   | 0, _ => []
@@ -101,6 +117,16 @@ def step (st : St) (ts : List String) : St × String :=
   match ts with
   | ["cfg", cg, cl, nc, rt] => ({ st with cutG := pF cg, cutL := pF cl, normC := pF nc, rtol := pF rt }, "ok")
   | "rules" :: k :: rest => ({ st with rules := parseRules (pN k) rest }, "ok")
+  | ["mode", m] => ({ st with cdf := m == "cdf" }, "ok")
+  | "gtab" :: n :: rest => ({ st with gtab := parseTriples (pN n) (rest.map pF) }, "ok")
+  | "mc" :: pol :: r :: rest =>
+      -- the Lorentzian components StarkBroadenedLine hands to add_lorentzian_line: "rad wl width" each
+      let e := parseEnv ((rest.take 14).map pF)
+      match rest.drop 14 with
+      | [c, a, b] =>
+          let cs := (starkComps fns K (pF c) (pF a) (pF b) (parsePol pol) (pF r) e).filter (·.lor)
+          (st, fFs (cs.flatMap fun c => [c.rad, c.wl, c.width]))
+      | _ => (st, "bad-op")
   | ["erf", x] => (st, fF (erfF (pF x)))
   | ["consts"] => (st, fFs [K.amu, K.echarge, K.c, K.hc, K.muB, (starkSplittingFactor : Float), sigma2fwhm fns])
   | ["coef"] => (st, fFs ((fwhmPolyGauss : List Float) ++ fwhmPolyLorentz ++ weightPoly))
@@ -108,6 +134,16 @@ def step (st : St) (ts : List String) : St × String :=
       (st, fFs (addGaussianLine fns st.cutG (pF r) (pF wl) (pF sg) (parseSpec rest)).samples)
   | "ll" :: r :: wl :: fw :: rest =>
       (st, fFs (addLorentzianLine fns (starkI st) st.cutL (pF r) (pF wl) (pF fw) (parseSpec rest)).samples)
+  | "llc" :: r :: wl :: fw :: rest =>
+      -- post-fix variant: the cumulative values are supplied by the harness (scipy hyp2f1) for every abscissa the
+      -- model can ask for (bin edges and the two cut-offs), keyed by bit pattern
+      let sp := parseSpec rest
+      let (tab, _) := takeTable (rest.drop (4 + sp.bins))
+      let G : Float → Float → Float → Float := fun _ _ x =>
+        match tab.find? (fun p => p.1.toBits == x.toBits) with
+        | some p => p.2
+        | none => 0.0 / 0.0
+      (st, fFs (addLorentzianLineCdf fns G st.normC st.cutL (pF r) (pF wl) (pF fw) sp).samples)
   | ["range", cut, wl, w, mn, mx, dl, bins] =>
       let sp : Spec Float := { mn := pF mn, mx := pF mx, dl := pF dl, bins := pN bins, samples := [] }
       match lineRange fns (pF cut) (pF wl) (pF w) sp with
